@@ -200,6 +200,11 @@ func (s *Syncer[H]) tailHeight(ctx context.Context, oldTail, head H) (uint64, er
 // estimateTailHeight estimates the tail header based on the current head.
 // It respects the trusting period, ensuring Syncer never initializes off an expired header.
 func (s *Syncer[H]) estimateTailHeight(head H) uint64 {
+	if s.Params.blockTime <= 0 {
+		// no block time to estimate with, so keep all headers starting from genesis
+		return 1
+	}
+
 	headersToRetain := uint64(s.Params.trustingPeriod / s.Params.blockTime) //nolint:gosec
 	if headersToRetain >= head.Height() {
 		// means chain is very young so we can keep all headers starting from genesis
@@ -222,17 +227,28 @@ func (s *Syncer[H]) findTailHeight(ctx context.Context, oldTail, head H) (uint64
 	case tailTimeDiff <= 0:
 		// current tail is relevant as is
 		return oldTail.Height(), nil
+	case s.Params.blockTime <= 0:
+		// no block time to estimate with, keep the current tail
+		return oldTail.Height(), nil
 	case tailTimeDiff >= window:
 		// current and expected tails are far from each other
 		// estimate with head for higher accuracy
 		headersToStore := uint64(window / s.Params.blockTime) //nolint:gosec
-		estimatedTailHeight = head.Height() - headersToStore
+		if headersToStore < head.Height() {
+			estimatedTailHeight = head.Height() - headersToStore
+		}
 	case tailTimeDiff < window:
 		// tails are close
 		// estimate with tail for higher accuracy
 		headersToStore := uint64(tailTimeDiff / s.Params.blockTime) //nolint:gosec
 		estimatedTailHeight = oldTail.Height() + headersToStore
+		if estimatedTailHeight < oldTail.Height() {
+			// overflow
+			estimatedTailHeight = head.Height()
+		}
 	}
+	// the estimate must stay within the chain, e.g. for halted chains or irregular block times
+	estimatedTailHeight = min(max(estimatedTailHeight, oldTail.Height()), head.Height())
 
 	log.Debugw(
 		"current tail is beyond pruning window",
